@@ -1,6 +1,12 @@
-(* The caller's event arrays: get_emodulus(copy=True) writes only to arrays it
-   allocated itself; with copy=False exactly the deform array is overwritten
-   (documented: "input arrays are overridden"). *)
+(* The caller's arrays (abscissa, deform, temperatures) in memory.
+   get_emodulus_mem follows the code's copies and in-place updates and computes
+   the result from the arrays as they are when griddata is called.
+   - copy=True: no existing array is modified, and the result is the pure
+     get_emodulus of the values the arrays held (also when the same array is
+     passed twice);
+   - copy=False: exactly the deform array is overwritten; the result is the
+     pure one provided the arrays are distinct (aliased inputs are outside
+     the property: ex_alias_nocopy_differs). *)
 From Coq Require Import ZArith NArith QArith List Bool Lia.
 From Verif Require Import Model.C05.
 Import ListNotations.
@@ -10,6 +16,27 @@ Ltac skip_keys a :=
          | |- context [N.eqb a ?k] => destruct (N.eqb_spec a k); [lia|]
          end.
 
+Lemma combine_map_map2 {A B C D} (fx : A -> C) (gd : B -> D) (h : A -> B -> B)
+      xs ds :
+  combine (map fx xs) (map gd (map2 h xs ds))
+  = map (fun ev => (fx (fst ev), gd (h (fst ev) (snd ev)))) (combine xs ds).
+Proof.
+  revert ds. induction xs as [|x xs IH]; intros [|d ds]; simpl; auto.
+  now rewrite IH.
+Qed.
+
+Lemma combine_map_map {A B C D} (fx : A -> C) (gd : B -> D) xs ds :
+  combine (map fx xs) (map gd ds)
+  = map (fun ev => (fx (fst ev), gd (snd ev))) (combine xs ds).
+Proof.
+  revert ds. induction xs as [|x xs IH]; intros [|d ds]; simpl; auto.
+  now rewrite IH.
+Qed.
+
+Lemma map2_map_l {A A' B C} (f : A' -> B -> C) (g : A -> A') l m :
+  map2 f (map g l) m = map2 (fun a b => f (g a) b) l m.
+Proof. revert m. induction l; intros [|b m]; simpl; congruence. Qed.
+
 Section Mem.
   Variable tri : list pt -> list triangle.
   Variable delta : feat -> Q -> Q -> Q.
@@ -17,18 +44,144 @@ Section Mem.
 
   Notation gem := (get_emodulus_mem tri delta eta).
 
-  (* the value returned is the pure get_emodulus of the values the arrays
-     held when the call was made *)
-  Theorem mem_result_is_pure copy m0 L S md ax ad :
-    snd (gem copy m0 L S md ax ad)
-    = get_emodulus tri delta eta L S md (combine (mread m0 ax) (mread m0 ad)).
+  (* the medium as the pure function sees it, temperatures read from m *)
+  Definition medium_of (m : mem) (md : mmedium) : medium :=
+    match md with
+    | MMNum v => MNum v
+    | MMScalar t => MTempScalar t
+    | MMArray a => MTempArray (mread m a)
+    end.
+
+  (* the normalised point of an event *)
+  Definition npoint (L : lut) (S : setup) (ev : event) : pt :=
+    (normq (scale_featx (l_feat L) (fst ev) (s_cw S) (l_cw L))
+           (lmax (map nx (l_nodes L))),
+     normq (pxcorr delta (l_feat L) (s_px S) (fst ev) (snd ev))
+           (lmax (map nd (l_nodes L)))).
+
+  (* interpolating the normalised arrays is get_emodulus of the events *)
+  Lemma emod_points_pure L S md evs :
+    emod_points tri eta L S md (map (npoint L S) evs)
+    = get_emodulus tri delta eta L S md evs.
   Proof.
-    unfold get_emodulus_mem, np_array, malloc.
-    destruct copy; simpl; reflexivity.
+    unfold emod_points, get_emodulus, route_scalar, route_array, array_event.
+    destruct md as [v|t|[|t0 tl]]; auto.
+    - rewrite map_map. reflexivity.
+    - rewrite map_map. reflexivity.
+    - rewrite map_length.
+      destruct (broadcast (map eta (t0 :: tl)) (length evs)); auto.
+      rewrite map2_map_l. reflexivity.
   Qed.
 
-  (* copy=True: neither the caller's arrays nor any other existing array is
-     modified *)
+  (* what the normalised arrays hold when griddata is called *)
+  Definition final_points (L : lut) (S : setup) (xs ds : list Q) : list pt :=
+    map (npoint L S) (combine xs ds).
+
+  Lemma final_points_eq L S xs ds :
+    combine (map (fun x => normq x (lmax (map nx (l_nodes L))))
+                 (map (fun x => scale_featx (l_feat L) x (s_cw S) (l_cw L)) xs))
+            (map (fun d => normq d (lmax (map nd (l_nodes L))))
+                 (if Qeq_bool (s_px S) 0 then ds
+                  else map2 (fun x d => d - delta (l_feat L) (s_px S) x) xs ds))
+    = final_points L S xs ds.
+  Proof.
+    unfold final_points, npoint, pxcorr. rewrite map_map.
+    destruct (Qeq_bool (s_px S) 0).
+    - rewrite combine_map_map. reflexivity.
+    - rewrite (combine_map_map2 _ _ (fun x d => d - delta (l_feat L) (s_px S) x)).
+      reflexivity.
+  Qed.
+
+  (* copy=True: the result is the pure get_emodulus of the values the arrays
+     held when the call was made -- whatever the addresses, also when the same
+     array is passed as abscissa and as deform *)
+  Theorem mem_result_is_pure_copy m0 L S md ax ad :
+    (ax < h_next m0)%N -> (ad < h_next m0)%N ->
+    (forall a, md = MMArray a -> (a < h_next m0)%N) ->
+    snd (gem true m0 L S md ax ad)
+    = get_emodulus tri delta eta L S (medium_of m0 md)
+                   (combine (mread m0 ax) (mread m0 ad)).
+  Proof.
+    intros Hx Hd Ht. rewrite <- emod_points_pure.
+    change (map (npoint L S) (combine (mread m0 ax) (mread m0 ad)))
+      with (final_points L S (mread m0 ax) (mread m0 ad)).
+    rewrite <- final_points_eq.
+    unfold get_emodulus_mem, np_array, malloc. simpl.
+    assert (Hmed : forall m', (forall a, (a < h_next m0)%N -> mread m' a = mread m0 a) ->
+                              match md with
+                              | MMNum v => MNum v
+                              | MMScalar t => MTempScalar t
+                              | MMArray a => MTempArray (mread m' a)
+                              end = medium_of m0 md).
+    { intros m' Hm. destruct md as [v|t|a]; simpl; auto.
+      rewrite Hm; auto. }
+    destruct (Qeq_bool (s_px S) 0) eqn:Px; simpl.
+    - rewrite Hmed.
+      + unfold mread, mwrite. simpl. rewrite ?N.eqb_refl.
+        repeat match goal with
+               | |- context [N.eqb ?a ?b] =>
+                   destruct (N.eqb_spec a b); [lia|]
+               end.
+        rewrite ?N.eqb_refl. reflexivity.
+      + intros a Ha. unfold mread. simpl. skip_keys a. reflexivity.
+    - rewrite Hmed.
+      + unfold mread, mwrite. simpl. rewrite ?N.eqb_refl.
+        repeat match goal with
+               | |- context [N.eqb ?a ?b] =>
+                   destruct (N.eqb_spec a b); [lia|]
+               end.
+        rewrite ?N.eqb_refl. reflexivity.
+      + intros a Ha. unfold mread, mwrite. simpl. skip_keys a. reflexivity.
+  Qed.
+
+  (* copy=False with distinct arrays: still the pure result *)
+  Theorem mem_result_is_pure_nocopy m0 L S md ax ad :
+    (ax < h_next m0)%N -> (ad < h_next m0)%N -> ax <> ad ->
+    (forall a, md = MMArray a -> (a < h_next m0)%N /\ a <> ad) ->
+    snd (gem false m0 L S md ax ad)
+    = get_emodulus tri delta eta L S (medium_of m0 md)
+                   (combine (mread m0 ax) (mread m0 ad)).
+  Proof.
+    intros Hx Hd Hxd Ht. rewrite <- emod_points_pure.
+    change (map (npoint L S) (combine (mread m0 ax) (mread m0 ad)))
+      with (final_points L S (mread m0 ax) (mread m0 ad)).
+    rewrite <- final_points_eq.
+    unfold get_emodulus_mem, np_array, malloc. simpl.
+    assert (Hmed : forall m', (forall a, (a < h_next m0)%N -> a <> ad ->
+                                         mread m' a = mread m0 a) ->
+                              match md with
+                              | MMNum v => MNum v
+                              | MMScalar t => MTempScalar t
+                              | MMArray a => MTempArray (mread m' a)
+                              end = medium_of m0 md).
+    { intros m' Hm. destruct md as [v|t|a]; simpl; auto.
+      destruct (Ht a eq_refl). rewrite Hm; auto. }
+    destruct (Qeq_bool (s_px S) 0) eqn:Px; simpl.
+    - rewrite Hmed.
+      + unfold mread, mwrite. simpl. rewrite ?N.eqb_refl.
+        repeat match goal with
+               | |- context [N.eqb ax ad] =>
+                   destruct (N.eqb_spec ax ad); [contradiction|]
+               | |- context [N.eqb ?a ?b] =>
+                   destruct (N.eqb_spec a b); [lia|]
+               end.
+        rewrite ?N.eqb_refl. reflexivity.
+      + intros a Ha Hn. reflexivity.
+    - rewrite Hmed.
+      + unfold mread, mwrite. simpl. rewrite ?N.eqb_refl.
+        repeat match goal with
+               | |- context [N.eqb ax ad] =>
+                   destruct (N.eqb_spec ax ad); [contradiction|]
+               | |- context [N.eqb ?a ?b] =>
+                   destruct (N.eqb_spec a b); [lia|]
+               end.
+        rewrite ?N.eqb_refl. reflexivity.
+      + intros a Ha Hn. unfold mread, mwrite. simpl.
+        destruct (N.eqb_spec a ad); [contradiction|]. reflexivity.
+  Qed.
+
+  (* copy=True: neither the caller's arrays (abscissa, deform, temperatures)
+     nor any other existing array is modified *)
   Theorem mem_copy_preserves m0 L S md ax ad :
     forall a, (a < h_next m0)%N ->
               mread (fst (gem true m0 L S md ax ad)) a = mread m0 a.
@@ -38,8 +191,7 @@ Section Mem.
       skip_keys a; reflexivity.
   Qed.
 
-  (* copy=False: every array but the deform array keeps its contents (in
-     particular the abscissa array), ... *)
+  (* copy=False: every array but the deform array keeps its contents *)
   Theorem mem_nocopy_others m0 L S md ax ad :
     forall a, (a < h_next m0)%N -> a <> ad ->
               mread (fst (gem false m0 L S md ax ad)) a = mread m0 a.
@@ -76,20 +228,44 @@ Section Mem.
   Qed.
 End Mem.
 
-(* non-vacuity: with copy=False the deform array really changes, with
-   copy=True it does not *)
-Definition ex_mem : mem := mkMem [(0%N, [150; 45 # 2]%Q); (1%N, [4 # 100; 2 # 100]%Q)] 2.
+(* non-vacuity *)
+Definition ex_mem : mem :=
+  mkMem [(0%N, [150; 45 # 2]%Q); (1%N, [4 # 100; 2 # 100]%Q); (2%N, [23; 24]%Q)] 3.
 Definition ex_L : lut :=
   mkLut Area 20 (4 # 100) 15
         [ (10, 1 # 100, 2); (100, 2 # 100, 8); (60, 10 # 100, 1) ]%Q.
+Definition ex_gem copy md ax ad :=
+  get_emodulus_mem (fun _ => [(0, 1, 2)%N]) (fun _ _ _ => 1 # 1000)
+                   (fun t => t) copy ex_mem ex_L
+                   (mkSetup 30 (16 # 100) (34 # 100)) md ax ad.
 
 Example ex_copy_false_overwrites :
-  mread (fst (get_emodulus_mem (fun _ => [(0, 1, 2)%N]) (fun _ _ _ => 1 # 1000)
-                               (fun t => t) false ex_mem ex_L
-                               (mkSetup 30 (16 # 100) (34 # 100)) (MNum 5) 0 1)) 1
-  <> mread ex_mem 1
-  /\ mread (fst (get_emodulus_mem (fun _ => [(0, 1, 2)%N]) (fun _ _ _ => 1 # 1000)
-                                  (fun t => t) true ex_mem ex_L
-                                  (mkSetup 30 (16 # 100) (34 # 100)) (MNum 5) 0 1)) 1
-     = mread ex_mem 1.
-Proof. vm_compute. split; [discriminate|reflexivity]. Qed.
+  mread (fst (ex_gem false (MMNum 5) 0 1)) 1 <> mread ex_mem 1
+  /\ mread (fst (ex_gem true (MMNum 5) 0 1)) 1 = mread ex_mem 1
+  /\ mread (fst (ex_gem true (MMArray 2) 0 1)) 2 = mread ex_mem 2.
+Proof. vm_compute. split; [discriminate|split; reflexivity]. Qed.
+
+(* the same array passed twice: with copy=True the result is that of the
+   values, with copy=False it is not (the hypothesis ax <> ad is needed) *)
+Definition ex_L2 : lut :=
+  mkLut Area 20 (4 # 100) 15
+        [ (1 # 100, 1 # 100, 2); (10 # 100, 2 # 100, 8); (6 # 100, 10 # 100, 1) ]%Q.
+Definition ex_mem2 : mem := mkMem [(0%N, [5 # 100; 4 # 100]%Q)] 1.
+Definition ex_gem2 copy :=
+  get_emodulus_mem (fun _ => [(0, 1, 2)%N]) (fun _ _ _ => 1 # 1000)
+                   (fun t => t) copy ex_mem2 ex_L2
+                   (mkSetup 20 (4 # 100) (34 # 100)) (MMNum 15) 0 0.
+
+Example ex_alias_copy_is_pure :
+  snd (ex_gem2 true)
+  = get_emodulus (fun _ => [(0, 1, 2)%N]) (fun _ _ _ => 1 # 1000) (fun t => t)
+                 ex_L2 (mkSetup 20 (4 # 100) (34 # 100)) (MNum 15)
+                 [(5 # 100, 5 # 100); (4 # 100, 4 # 100)]%Q.
+Proof. vm_compute. reflexivity. Qed.
+
+Example ex_alias_nocopy_differs :
+  match snd (ex_gem2 false), snd (ex_gem2 true) with
+  | Some (Some a :: _), Some (Some b :: _) => ~ a == b
+  | _, _ => False
+  end.
+Proof. vm_compute. discriminate. Qed.
